@@ -66,6 +66,29 @@ func detBytesSX(e error) SX {
 	return L(out...)
 }
 
+// wireBytesSX: the protobuf bytes of the whole EncodedError with every full_details payload cleared.
+func wireBytesSX(e error) SX {
+	enc := errors.EncodeError(bgCtx, e)
+	var strip func(x *errorspb.EncodedError)
+	strip = func(x *errorspb.EncodedError) {
+		if l := x.GetLeaf(); l != nil {
+			l.Details.FullDetails = nil
+			for i := range l.MultierrorCauses {
+				strip(l.MultierrorCauses[i])
+			}
+		} else if w := x.GetWrapper(); w != nil {
+			w.Details.FullDetails = nil
+			strip(&w.Cause)
+		}
+	}
+	strip(&enc)
+	b, err := enc.Marshal()
+	if err != nil {
+		return Sym("marshal-error")
+	}
+	return Str(string(b))
+}
+
 func isSX(e error, refs []error) SX {
 	out := make([]SX, len(refs))
 	for i, r := range refs {
@@ -194,6 +217,7 @@ func obsCase(e error, refs []error) SX {
 		L(Sym("tree"), optSX(func() SX { return treeSX(e) })),
 		L(Sym("enc"), optSX(func() SX { return encSX(e) })),
 		L(Sym("detbytes"), optSX(func() SX { return detBytesSX(e) })),
+		L(Sym("wirebytes"), optSX(func() SX { return wireBytesSX(e) })),
 		L(Sym("h1tree"), onHop(h1, ok1, treeSX)),
 		L(Sym("h1enc"), onHop(h1, ok1, encSX)),
 		L(Sym("h2enc"), onHop(h2, ok2, encSX)),
